@@ -6,6 +6,7 @@ RULE = ("the real binary with --num-threads 1 vs {2,4,16,64} on file sets mixing
         "(job_start/add/lock/emit/unlock/job_end/totals), which the Lean pool model replays: a trace is rejected if a write happens outside "
         "a lock span, two spans overlap, a file's lint diagnostics use more than one span, or the summary differs from the sum of all "
         "additions; stdout of the multi-threaded run is parsed and compared per file with the sequential run; "
+        "directory arguments of 24-40 many-warning files interleaved with entries that cannot be read or opened (directories and dangling symbolic links named *.lua), totals compared with the expected sums and across thread counts; "
         "several hundred files in nested directories under a low RLIMIT_NOFILE (1 vs 2/4/16 threads); "
         "non-trivial = a trace with >= 2 workers and >= 2 lock spans")
 
@@ -173,7 +174,12 @@ def body(ctx):
                 with open(os.path.join(inner, f"f{i:03d}.lua"), "w") as fh:
                     fh.write(body_text)
                 if i % every == every - 1:
-                    os.makedirs(os.path.join(inner, f"f{i:03d}x.lua"), exist_ok=True)
+                    # … alternating with entries that cannot even be opened (dangling symbolic links named *.lua: one error
+                    # each, counted by the worker before any output): the files after them are linted all the same
+                    if (i // every) % 2 == 0:
+                        os.makedirs(os.path.join(inner, f"f{i:03d}x.lua"), exist_ok=True)
+                    elif not os.path.lexists(os.path.join(inner, f"f{i:03d}x.lua")):
+                        os.symlink("does_not_exist_anywhere.lua", os.path.join(inner, f"f{i:03d}x.lua"))
                     n_bad += 1
             os.makedirs(os.path.join(inner, "zz.lua"), exist_ok=True)
             n_bad += 1
@@ -182,8 +188,9 @@ def body(ctx):
             rc1, out1, err1 = run_once(ctx, d, ["src"], 1, "json2", aw)
             d1, s1, bad1 = cli.parse_json_lines(out1)
             ctx.evaluations += 1
-            if s1 is None or s1.get("errors") != n_bad:
-                ctx.violation(f"implementation violates the specification: sequential run over a directory with {n_bad} unreadable entries reports summary {s1}",
+            n_warn = n_files * len(body_text.splitlines())
+            if s1 is None or s1.get("errors") != n_bad or s1.get("warnings") != n_warn:
+                ctx.violation(f"implementation violates the specification: sequential run over a directory with {n_files} files of {len(body_text.splitlines())} warnings each and {n_bad} unreadable entries reports summary {s1} (expected {n_bad} errors, {n_warn} warnings)",
                               f"directory: {d}\nargument: src\nstdout (tail):\n{out1[-800:]}\nstderr (head):\n{err1[:800]}")
                 continue
             for threads in (2, 3, 4, 16):
@@ -194,7 +201,7 @@ def body(ctx):
                     ctx.evaluations += 1
                     if badn or sn != s1 or rc != rc1 or per_file(dn) != per_file(d1):
                         ctx.violation(f"implementation violates the specification: --num-threads {threads} over a directory with {n_bad} unreadable entries: summary/exit {sn}/{rc}, sequential run {s1}/{rc1}",
-                                      f"directory: {d}\nargument: src (files f000.lua.. with {len(body_text.splitlines())} warnings each; every {every}th followed by a directory named *.lua)\nthreads: {threads}\nstdout (tail):\n{out[-600:]}")
+                                      f"directory: {d}\nargument: src (files f000.lua.. with {len(body_text.splitlines())} warnings each; every {every}th followed by a directory or a dangling symbolic link named *.lua)\nthreads: {threads}\nstdout (tail):\n{out[-600:]}")
                     evs = parse_trace(tp)
                     panics = err.count("The application panicked")
                     lines.append(f"C18.trace\t({' '.join(evs)})\t({rc} {panics} {'true' if aw else 'false'})")
